@@ -24,6 +24,9 @@ C10 — line-protocol driver of the model (core only).
                                                the prune step of the model derive it, then
                                                or=<or-suffixes> pre=<value prefix> cost=<n> em=<isEmptyMatch> err=<0|1>
 
+  xshow | xsel <mst> <XPRED>                 → ids <ascending>   (XPRED = PRED plus `i k n v…` IN, `n k n v…` NOT IN,
+                                               `e k1 k2` tag = tag, `d k1 k2` tag != tag, `f n` a field comparison)
+
 PRED = <nre> R… <prefix tokens>: `& a b`, `| a b`, `( a`, `= k v`, `! k v`, `~ k i`, `^ k i`, `*`.
 R = R:<matchEmpty><literal><emptyText>:<tf.value>:<text>:<value/tf/prune;…> — the matcher tables
 of the i-th regex atom as the harness read them off the real tag filter (`_` = absent tag).
@@ -32,6 +35,7 @@ Strings are hex with an `x` prefix.
 import OG.C10.Model
 import OG.C10.Bytes
 import OG.C10.TagFilter
+import OG.C10.Forms
 
 namespace OG.C10
 
@@ -340,6 +344,69 @@ def byteOp (s : St) : List String → Option String
 def isByteOp (k : String) : Bool :=
   k == "mtv" || k == "utv" || k == "ck" || k == "uck" || k == "cmp" || k == "parse" || k == "scan" || k == "tfinit"
 
+
+/-- take `n` hex strings -/
+def takeVals : Nat → List String → Option (List Str × List String)
+  | 0, rest => some ([], rest)
+  | n + 1, v :: rest => do
+    let v ← unhex v
+    let (vs, rest) ← takeVals n rest
+    some (v :: vs, rest)
+  | _, [] => none
+
+partial def parseXPredTok (res : Array DRe) : List String → Option (XPred DRe × List String)
+  | "&" :: rest => do
+    let (a, rest) ← parseXPredTok res rest
+    let (b, rest) ← parseXPredTok res rest
+    some (.and a b, rest)
+  | "|" :: rest => do
+    let (a, rest) ← parseXPredTok res rest
+    let (b, rest) ← parseXPredTok res rest
+    some (.or a b, rest)
+  | "(" :: rest => do
+    let (a, rest) ← parseXPredTok res rest
+    some (.paren a, rest)
+  | "=" :: k :: v :: rest => do some (.atom (.tag (.eq (← unhex k) (← unhex v))), rest)
+  | "!" :: k :: v :: rest => do some (.atom (.tag (.ne (← unhex k) (← unhex v))), rest)
+  | "~" :: k :: i :: rest => do some (.atom (.tag (.re (← unhex k) (← res[(← i.toNat?)]?))), rest)
+  | "^" :: k :: i :: rest => do some (.atom (.tag (.nre (← unhex k) (← res[(← i.toNat?)]?))), rest)
+  | "i" :: k :: n :: rest => do
+    let (vs, rest) ← takeVals (← n.toNat?) rest
+    some (.atom (.inSet (← unhex k) vs), rest)
+  | "n" :: k :: n :: rest => do
+    let (vs, rest) ← takeVals (← n.toNat?) rest
+    some (.atom (.notIn (← unhex k) vs), rest)
+  | "e" :: a :: b :: rest => do some (.atom (.tagEq (← unhex a) (← unhex b)), rest)
+  | "d" :: a :: b :: rest => do some (.atom (.tagNe (← unhex a) (← unhex b)), rest)
+  | "f" :: n :: rest => do some (.atom (.field (← n.toNat?)), rest)
+  | _ => none
+
+def parseXPred (toks : List String) : Option (XPred DRe) :=
+  match toks with
+  | n :: rest => do
+    let n ← n.toNat?
+    if rest.length < n then none else
+    let res ← (rest.take n).mapM parseRe
+    match parseXPredTok res.toArray (rest.drop n) with
+    | some (p, []) => some p
+    | _ => none
+  | [] => none
+
+def xAtomsOf : XPred DRe → List (Atom DRe)
+  | .atom (.tag a) => [a]
+  | .atom _ => []
+  | .and a b | .or a b => xAtomsOf a ++ xAtomsOf b
+  | .paren a => xAtomsOf a
+
+def xTablesCover (items : List Item) (mst : Str) (p : XPred DRe) : Bool :=
+  (xAtomsOf p).all fun a =>
+    match a with
+    | .re k r | .nre k r =>
+      (r.row none).isSome && items.all fun
+        | .t2i m k' v _ => !(m == mst && k' == k) || (r.row (some v)).isSome
+        | _ => true
+    | _ => true
+
 def sortIds (l : List Id) : List Id := l.mergeSort (fun a b => decide (a ≤ b))
 
 def dedupSorted : List Str → List Str
@@ -360,6 +427,18 @@ def parseKeyList : List String → Option (List SKey)
   | _ => none
 
 def stepSearch (s : St) : List String → St × String
+  | "xshow" :: m :: rest =>
+    match unhex m, parseXPred rest with
+    | some m, some p => if xTablesCover s.vis m p then (s, showIds "ids" (xSearchShow dM s m p)) else (s, "bad-op")
+    | _, _ => (s, "bad-op")
+  | "xsel" :: m :: rest =>
+    match unhex m, parseXPred rest with
+    | some m, some p =>
+      if !xTablesCover s.vis m p then (s, "bad-op") else
+      match xSearchSel dM s m p with
+      | (some ids, s') => (s', showIds "ids" ids)
+      | (none, s') => (s', "err searchSeriesKey")
+    | _, _ => (s, "bad-op")
   | "del" :: m :: rest =>
     match unhex m, parsePred rest with
     | some m, some p =>
